@@ -255,7 +255,7 @@ macro_rules! string_enum_harness {
         fn $name() { string_enum_body::<$a, $b, $c>() }
     )* };
 }
-string_enum_harness!(c06_strenum_1_1_1 = (1, 1, 1), c06_strenum_2_2_2 = (2, 2, 2), c06_strenum_2_1_2 = (2, 1, 2), c06_strenum_0_0_1 = (0, 0, 1));
+string_enum_harness!(c06_strenum_1_1_1 = (1, 1, 1), c06_strenum_2_2_2 = (2, 2, 2), c06_strenum_2_1_2 = (2, 1, 2), c06_strenum_1_0_1 = (1, 0, 1));
 
 #[kani::proof]
 #[kani::unwind(9)]
@@ -313,41 +313,50 @@ fn c06_option_vec_i32() {
 #[kani::proof]
 #[kani::unwind(6)]
 #[kani::stub(alloc::fmt::format, stub_format)]
-fn c06_option_vec_string() {
+fn c06_option_string() {
     let (minl, maxl) = (any_opt_usize(), any_opt_usize());
-    let mk = || {
-        let r = Rc::new(Restrictions { min_length: minl, max_length: maxl, ..Default::default() });
-        std::mem::forget(r.clone());
-        r
+    let r = Rc::new(Restrictions { min_length: minl, max_length: maxl, ..Default::default() });
+    std::mem::forget(r.clone());
+    let (s1, c1) = any_utf8::<2>();
+    let present: bool = kani::any();
+    let some: Option<String> = Some(s1);
+    let none: Option<String> = None;
+    // the two cases are separate calls (no conditional move of the String: that merges pointers and stalls the solver)
+    let got = if present {
+        let res = some.check_restrictions(Some(r));
+        let g = res.is_ok();
+        std::mem::forget(res);
+        g
+    } else {
+        let res = none.check_restrictions(Some(r));
+        let g = res.is_ok();
+        std::mem::forget(res);
+        g
     };
-    let spec = |chars: usize| minl.map_or(true, |m| chars >= m) && maxl.map_or(true, |m| chars <= m);
+    std::mem::forget(some);
+    let spec = minl.map_or(true, |m| c1 >= m) && maxl.map_or(true, |m| c1 <= m);
+    kani::cover!(present && !got, "present optional rejected");
+    kani::cover!(!present, "absent optional");
+    assert!(got == (!present || spec), "C06 Option<String> delegation");
+}
+
+#[kani::proof]
+#[kani::unwind(6)]
+#[kani::stub(alloc::fmt::format, stub_format)]
+fn c06_vec_string() {
+    let exl = any_opt_usize();
+    let r = Rc::new(Restrictions { length: exl, ..Default::default() });
+    std::mem::forget(r.clone());
     let (s1, c1) = any_utf8::<2>();
     let (s2, c2) = any_utf8::<1>();
-    let present: bool = kani::any();
-    let o = if present { Some(s1) } else { std::mem::forget(s1); None };
-    let res = o.check_restrictions(Some(mk()));
+    let spec = |c: usize| exl.map_or(true, |m| c == m);
+    let want = spec(c1) && spec(c2);
+    let v = vec![s1, s2];
+    let res = v.check_restrictions(Some(r));
     let got = res.is_ok();
     std::mem::forget(res);
-    assert!(got == (!present || spec(c1)), "C06 Option<String> delegation");
-    let n: u8 = kani::any();
-    kani::assume(n <= 2);
-    let mut v: Vec<String> = Vec::new();
-    let mut want = true;
-    if n >= 1 {
-        v.push(s2);
-        want = want && spec(c2);
-    } else {
-        std::mem::forget(s2);
-    }
-    if n >= 2 {
-        if let Some(x) = o { v.push(x); want = want && spec(c1); }
-    } else {
-        std::mem::forget(o);
-    }
-    let res = v.check_restrictions(Some(mk()));
-    let got_v = res.is_ok();
-    std::mem::forget(res);
     std::mem::forget(v);
-    kani::cover!(!got_v, "vec rejected");
-    assert!(got_v == want, "C06 Vec<String> delegation");
+    kani::cover!(!got, "two items, rejected");
+    kani::cover!(got, "two items, accepted");
+    assert!(got == want, "C06 Vec<String> delegation: ok iff every item ok");
 }
